@@ -1,9 +1,69 @@
-/- driver handler of the `interp` stream (line protocol, see Main.lean) -/
+/- driver handler of the `interp` stream -/
 import AslModel.Drv.Util
+import AslModel.Interp
+import AslModel.Lite
 namespace Asl.Drv.Interp
-open Asl
+open Asl Asl.Drv
+
+mutual
+/-- engine-generated Cause texts are masked on both sides (an Error Output `{Error, Cause}`) -/
+def maskCause : Json → Json
+  | .obj kvs =>
+    let kvs' := maskCauseM kvs
+    if kvs'.all (fun kv => kv.1 = S "Error" || kv.1 = S "Cause") && (objGet kvs' (S "Error")).isSome then
+      match objGet kvs' (S "Cause") with
+      | some (.str _) => .obj (objSet kvs' (S "Cause") (.str (S "<cause>")))
+      | _ => .obj kvs'
+    else .obj kvs'
+  | .arr xs => .arr (maskCauseL xs)
+  | j => j
+def maskCauseL : List Json → List Json
+  | [] => []
+  | x :: xs => maskCause x :: maskCauseL xs
+def maskCauseM : List (Str × Json) → List (Str × Json)
+  | [] => []
+  | (k, v) :: kvs => (k, maskCause v) :: maskCauseM kvs
+end
+
+/-- oracle document: {"<fn>": [[payload, [reply0, reply1, …]], …], …}; the last reply repeats;
+a function or payload not listed answers `{}` -/
+def oracleFn (o : Json) : TaskFn := fun fn payload n =>
+  match o with
+  | .obj kvs =>
+    match objGet kvs fn with
+    | some (.arr entries) =>
+      let rec find : List Json → Json
+        | [] => .obj []
+        | (.arr [p, .arr replies]) :: rest =>
+          if canon (maskCause p) = canon (maskCause payload) then
+            (match replies[n]? with
+             | some r => r
+             | none => replies.getLast?.getD (.obj []))
+          else find rest
+        | _ :: rest => find rest
+      find entries
+    | _ => .obj []
+  | _ => .obj []
+
+def optJ : Option Json → Json
+  | some j => j
+  | none => .null
+
+def outcomeJson (o : Outcome) : Json :=
+  .obj [(S "status", .str o.status), (S "output", optJ o.output),
+        (S "error", match o.error with | some e => .str e | none => .null),
+        (S "cause", optJ o.cause), (S "failState", .bool o.failState),
+        (S "trace", .arr (o.trace.map .str)), (S "multiFail", .bool o.multiFail)]
 
 def handle : List String → String
+  | ["run", asl, input, ctx, oracle, fuel] =>
+    match rd asl, rd input, rd ctx, rd oracle, fuel.toNat? with
+    | some a, some i, some c, some o, some f =>
+      if !Lite.machineSupported 200 a then "unsupported"
+      else
+        let env : Env := { tmpl := Lite.tmpl, choose := Lite.choose, task := oracleFn o }
+        "ok\t" ++ js (outcomeJson (run env f a i c))
+    | _, _, _, _, _ => "unsupported"
   | _ => "bad-op"
 
 end Asl.Drv.Interp
